@@ -35,7 +35,9 @@ fn main() {
     if let Err(e) = r {
         let msg = if let Some(s) = e.downcast_ref::<&str>() { s.to_string() } else if let Some(s) = e.downcast_ref::<String>() { s.clone() } else { "panic".to_string() };
         let loc = util::last_panic_loc();
-        if !loc.starts_with("/repo/") || outp.is_empty() {
+        // (smoltcp's own sources, or one of its dependencies reached through it)
+        let under_test = loc.starts_with("/repo/") || loc.contains("/.cargo/registry/");
+        if !under_test || outp.is_empty() {
             // a bug of the harness itself: a tool error
             eprintln!("harness panic: {} @ {}", msg, loc);
             std::process::exit(101);
